@@ -73,6 +73,13 @@ func (f *Fabric) UnblockAll() {
 	f.mu.Unlock()
 }
 
+// Reachable reports whether a dial to addr would currently succeed at once.
+func (f *Fabric) Reachable(addr string) bool {
+	f.mu.Lock()
+	defer f.mu.Unlock()
+	return f.listeners[addr] != nil && f.blocked[addr] == nil
+}
+
 // Dials returns how many dial attempts addr has seen.
 func (f *Fabric) Dials(addr string) int {
 	f.mu.Lock()
